@@ -8,3 +8,8 @@ Definition x_sl_whole_sim (fuel_bp fuel_walk : N) (net : list Linkf) (tp : TPf) 
     (con : Consistf) : list out :=
   res_outs (sl_whole_sim (N.to_nat fuel_bp) (N.to_nat fuel_walk) net tp route rp fmax fb st c con)
            (fun r => sl_outs (fst r) ++ consist_outs (snd r)).
+
+Definition x_ss_whole_sim (fuel : N) (net : list Linkf) (tp : TPf) (route : list Z) (rp : ResParams (F:=float))
+    (fmax : float) (times speeds : list float) (st : TStatef) (c : ResCache) (con : Consistf) : list out :=
+  res_outs (ss_whole_sim (N.to_nat fuel) net tp route rp fmax times speeds st c con)
+           (fun r => sc_outs (fst r) ++ consist_outs (snd r)).
